@@ -277,3 +277,38 @@ Proof.
   rewrite Rpower_inv_exp by lra. reflexivity.
 Qed.
 End Template.
+
+(** * _findTm for an arbitrary template object (mu, nu any positive exponents) *)
+(** enthalpies as the template class itself uses them (findHydroBoundaries, efficiencyFactor):
+    w+ = wN (T+/Tn)^mu,  w- = wN psiN (T-/Tn)^nu *)
+Theorem findTm_energy_flux_gen wN Tn psiN mu nu vp vm Tp :
+  0 < Tn -> 0 < psiN -> 0 < mu -> 0 < nu -> 0 < vp < 1 -> 0 < vm < 1 -> 0 < Tp ->
+  let ap := 3 / (mu * Rpower Tn mu) in
+  let am := 3 * psiN / (nu * Rpower Tn nu) in
+  let Tm := Rpower (ap * vp * mu * (1 - vm ^ 2) * Rpower Tp mu /
+                    (am * vm * nu * (1 - vp ^ 2))) (1 / nu) in
+  0 < Tm /\
+  eflux (wN * Rpower (Tp / Tn) mu) vp = eflux (wN * psiN * Rpower (Tm / Tn) nu) vm.
+Proof.
+  intros HTn Hpsi Hmu Hnu Hp Hm HTp ap am Tm.
+  pose proof (one_minus_sq_pos vp Hp) as Gp. pose proof (one_minus_sq_pos vm Hm) as Gm.
+  assert (P1 : 0 < Rpower Tn mu) by apply exp_pos.
+  assert (P2 : 0 < Rpower Tn nu) by apply exp_pos.
+  assert (P3 : 0 < Rpower Tp mu) by apply exp_pos.
+  assert (Hap : 0 < ap) by (unfold ap; apply Rdiv_lt_0_compat; [lra|apply Rmult_lt_0_compat; lra]).
+  assert (Ham : 0 < am).
+  { unfold am. apply Rdiv_lt_0_compat; [|apply Rmult_lt_0_compat; lra].
+    apply Rmult_lt_0_compat; lra. }
+  set (X := ap * vp * mu * (1 - vm ^ 2) * Rpower Tp mu / (am * vm * nu * (1 - vp ^ 2))) in *.
+  assert (G1 : 0 < 1 - vm ^ 2) by (replace (vm ^ 2) with (vm * vm) by ring; lra).
+  assert (G2 : 0 < 1 - vp ^ 2) by (replace (vp ^ 2) with (vp * vp) by ring; lra).
+  assert (HX : 0 < X).
+  { unfold X. apply Rdiv_lt_0_compat; repeat (apply Rmult_lt_0_compat; [|lra]); lra. }
+  assert (HT : Rpower Tm nu = X) by (unfold Tm; apply Rpower_inv_exp; lra).
+  split; [unfold Tm; apply exp_pos|].
+  unfold eflux, g2.
+  rewrite !Rpower_div by (try lra; unfold Tm; apply exp_pos).
+  rewrite HT. unfold X, ap, am.
+  replace (vm ^ 2) with (vm * vm) by ring. replace (vp ^ 2) with (vp * vp) by ring.
+  field. repeat split; lra.
+Qed.
